@@ -305,9 +305,9 @@ def d2(x):
     return ('%.2E' % x).replace('E', 'D')
 
 
-def gen_12(ctx, rng, absent=False):
+def gen_12(ctx, rng, absent=False, trans=None):
     from cherab.core.atomic import hydrogen, deuterium, helium, carbon, neon, beryllium, boron
-    nblocks = rng.choice([1, 1, 2, 3, 5, 12, rng.randint(1, 12)])
+    nblocks = len(trans) if trans else rng.choice([1, 1, 2, 3, 5, 12, rng.randint(1, 12)])
     receiver, charge = rng.choice([(hydrogen, 1), (helium, 2), (carbon, 6), (neon, 10), (beryllium, 4), (boron, 5)])
     donor = rng.choice([hydrogen, deuterium])
     ups = rng.sample(range(2, 40), nblocks)
@@ -316,6 +316,8 @@ def gen_12(ctx, rng, absent=False):
     for b in range(nblocks):
         up = ups[b]
         lo = rng.randint(1, up - 1)
+        if trans:
+            up, lo = trans[b]
         sizes = [rng.choice([1, 5, 6, 7, 12, 13, 23, 24, rng.randint(1, 24)]), rng.choice([1, 6, 7, 11, 12, rng.randint(1, 12)]),
                  rng.choice([1, 6, 7, 18, 24, rng.randint(1, 24)]), rng.choice([1, 5, 6, 7, 12, rng.randint(1, 12)]),
                  rng.choice([1, 6, 7, 12, rng.randint(1, 12)])]
@@ -453,7 +455,7 @@ def f5(x):
     return '%.5f' % x
 
 
-def gen_11(ctx, rng, wrong=None, dup=False, fixed=None, force=None):
+def gen_11(ctx, rng, wrong=None, dup=False, fixed=None, force=None, z1_range=None):
     from cherab.core.atomic import hydrogen, deuterium, helium, carbon, neon, argon, krypton, xenon, nitrogen
     cls = rng.choice(sorted(CLS11))
     element = rng.choice([hydrogen, helium, carbon, nitrogen, neon, argon, krypton, xenon])
@@ -461,6 +463,8 @@ def gen_11(ctx, rng, wrong=None, dup=False, fixed=None, force=None):
         cls, element = force
     Z = element.atomic_number
     nblocks = min(Z, rng.choice([1, 1, 2, 3, 6, 10, 12, rng.randint(1, 12)]))
+    if z1_range:
+        nblocks = z1_range[1] - z1_range[0] + 1
     nNe, nTe = grid_size(rng, ctx), grid_size(rng, ctx)
     if rng.random() < 0.25:
         nNe = rng.randint(1, 8)                  # few densities: the 4th line of the file is a temperature line
@@ -478,6 +482,8 @@ def gen_11(ctx, rng, wrong=None, dup=False, fixed=None, force=None):
         ne = [f5(x) for x in increasing(rng, nNe, 7.0, 16.0)]
         te = [f5(t0 + 0.25 * i) for i in range(nTe)]
     z1s = list(range(1, nblocks + 1))
+    if z1_range:
+        z1s = list(range(z1_range[0], z1_range[1] + 1))
     metaline = []
     if resolved:
         metaline = ['1'] * (nblocks + 1)
@@ -678,7 +684,7 @@ def level_key(s):
     return conf.replace('_', ' ') + ' ' + spin + L_LOOKUP[int(l)] + j
 
 
-def gen_15(ctx, rng, absent=False, modes=None):
+def gen_15(ctx, rng, absent=False, modes=None, force_el=None, trans=None):
     from cherab.core.atomic import hydrogen, deuterium, helium, carbon, neon, nitrogen, beryllium
     mode = rng.choice(modes or ['hydrogen', 'hydrogen-like', 'full', 'full', 'full-nodot', 'hf-hydrogen', 'hf-hydrogen-like', 'bnd'])
     hf = None
@@ -701,7 +707,9 @@ def gen_15(ctx, rng, absent=False, modes=None):
         element, charge = rng.choice([(helium, 1), (carbon, 5)])
         dialect = 'h'
         fname = 'adf15/pec96#%s/pec96#%s_bnd#%s%d.dat' % (element.symbol.lower(), element.symbol.lower(), element.symbol.lower(), charge)
-    nblocks = rng.choice([1, 2, 3, 4, 6, 12, rng.randint(1, 12)])
+    if force_el:
+        element, charge = force_el
+    nblocks = len(trans) if trans else rng.choice([1, 2, 3, 4, 6, 12, rng.randint(1, 12)])
     full = dialect in ('f1', 'f0')
     cfgs = []
     if full:
@@ -728,6 +736,8 @@ def gen_15(ctx, rng, absent=False, modes=None):
             else:
                 up = rng.randint(2, 20)
                 lo = rng.randint(1, up - 1)
+            if trans:
+                typ, up, lo = trans[b]
             if (typ, up, lo) not in seen:
                 seen.add((typ, up, lo))
                 break
@@ -1289,6 +1299,213 @@ def locate_table(ctx, w, stub):
     ctx.extra['locate_table_exhaustive'] = True
 
 
+# ------------------------------------------------------------------------------------------------ install sequences into one repository
+def gen_sequences(ctx, rng):
+    """several files of one kind that share repository keys partially, to be installed one after the other into ONE repository.
+    Returns [(name, [case, ...])]; the oracle is a last-write-wins dictionary kept by the harness."""
+    from cherab.core.atomic import hydrogen, deuterium, carbon, neon, argon, helium
+    seqs = []
+    # ADF12: same donor / receiver / charge; metastable 1, then 2 (shared transitions), then 1 again (partial overwrite)
+    pool = rng.sample([(u, u - 1) for u in range(3, 20)] + [(u, u - 2) for u in range(4, 12)], 5)
+    donor, (receiver, charge) = rng.choice([hydrogen, deuterium]), rng.choice([(carbon, 6), (neon, 10), (helium, 2)])
+    steps = []
+    for meta, tr in ((1, pool[0:3]), (2, pool[0:2] + pool[3:4]), (1, pool[1:2] + pool[4:5]), (3, pool[0:1])):
+        c = gen_12(ctx, rng, trans=list(tr))
+        c.update(donor=donor, receiver=receiver, charge=charge, meta=meta)
+        steps.append(c)
+    seqs.append(('adf12', steps))
+    # ADF11: same class and element, overlapping charge ranges, different grids
+    cls = rng.choice(sorted(CLS11))
+    seqs.append(('adf11' + cls, [gen_11(ctx, rng, force=(cls, argon), z1_range=r) for r in ((1, 3), (3, 5), (2, 2), (7, 8))]))
+    # ADF15: same element and charge, transitions / types shared partially
+    el15 = rng.choice([(helium, 1), (carbon, 5)])
+    seqs.append(('adf15', [gen_15(ctx, rng, modes=['hydrogen-like'], force_el=el15, trans=t) for t in (
+        [('EXCIT', 3, 2), ('EXCIT', 4, 2), ('RECOM', 3, 2)], [('EXCIT', 4, 2), ('EXCIT', 5, 2), ('CHEXC', 3, 2)],
+        [('RECOM', 3, 2), ('CHEXC', 4, 3)], [('CHEXC', 3, 2)])]))
+    # ADF21 / ADF22: one rate per key; other keys of the same family must survive, a re-install replaces only its own key
+    st = []
+    for target, zt in ((carbon, 6), (neon, 10), (carbon, 6), (carbon, 5)):
+        c = gen_2x(ctx, rng, kind='adf21'); c.update(beam=hydrogen, target=target, zt=zt); st.append(c)
+    seqs.append(('adf21', st))
+    st = []
+    for meta in (1, 2, 1, 3):
+        c = gen_2x(ctx, rng, kind='bmp'); c.update(beam=hydrogen, target=carbon, zt=6, meta=meta); st.append(c)
+    seqs.append(('adf22bmp', st))
+    st = []
+    for tr in ((3, 2), (4, 2), (3, 2), (4, 3)):
+        c = gen_2x(ctx, rng, kind='bme'); c.update(beam=deuterium, target=neon, zt=10, transition=tr); st.append(c)
+    seqs.append(('adf22bme', st))
+    return seqs
+
+
+def _seq_keys(c):
+    """the repository entries that installing case c writes: {key: single-entry case used for read-back}"""
+    out = {}
+    if c['fmt'] == '12':
+        for blk in c['blocks']:
+            one = dict(c); one['blocks'] = [blk]
+            out[('12', c['donor'].symbol, c['receiver'].symbol, c['charge'], blk[0], c['meta'])] = one
+    elif c['fmt'] == '11':
+        for z, tab in zip(c['z1s'], c['rates']):
+            one = dict(c); one['z1s'] = [z]; one['rates'] = [tab]
+            out[('11', c['cls'], c['element'].symbol, z + CLS11[c['cls']][2])] = one
+    elif c['fmt'] == '15':
+        for cls in ('excitation', 'recombination', 'thermalcx', 'wavelength'):
+            for tr, stc in c['want'][cls].items():
+                one = dict(c); one['want'] = {k: ({tr: stc} if k == cls else {}) for k in c['want']}
+                out[('15', cls, c['element'].symbol, c['charge'], tr)] = one
+    else:
+        extra = {'adf21': (), 'bmp': (c['meta'],), 'bme': (c['transition'],)}[c['kind']]
+        out[('2x', c['kind'], c['beam'].symbol, c['target'].symbol, c['zt']) + extra] = c
+    return out
+
+
+def run_sequence(ctx, w, name, steps, texts):
+    """install step by step into one repository; after EVERY install everything installed so far (last write per key wins)
+    must read back exactly, and the metastable sets of ADF12 transitions must be exactly those written"""
+    from cherab.openadas import install as I, repository as R
+    w.fresh_repo()
+    state = {}
+    fails = []
+    for k, (c, text) in enumerate(zip(steps, texts)):
+        rel, _ = w.write(text, c.get('fname'))
+        st, e = quiet(getattr(I, installer_name(c)), *install_args(c, rel), repository_path=w.repo, adas_path=w.adas)
+        if st != 'ok':
+            fails.append(('C08:sequence:%s:step%d:raised-%s' % (name, k + 1, st), 'install #%d of the sequence raised %s: %s' % (k + 1, st, e)))
+            break
+        for key, one in _seq_keys(c).items():
+            state[key] = (k + 1, one)
+        for key, (when, one) in state.items():
+            d = readback(R, one, w.repo)
+            if d:
+                fails.append(('C08:sequence:%s:%s:%s' % (name, 'entry-of-earlier-install-lost-or-changed' if when <= k else 'entry-just-installed',
+                                                         sigcat(d)),
+                              'sequence %s, after install #%d: entry %r written by install #%d: %s' % (name, k + 1, key, when, d)))
+                break
+        if c['fmt'] == '12':
+            metas = {}
+            for key in state:
+                metas.setdefault(key[4], set()).add(key[5])
+            for tr, want in metas.items():
+                st3, back = call(R.get_beam_cx_rates, c['donor'], c['receiver'], c['charge'], tr, w.repo)
+                got = set(dict(back).keys()) if st3 == 'ok' else st3
+                if got != want:
+                    fails.append(('C08:sequence:adf12:metastable-set', 'after install #%d transition %r holds metastables %r, written so far %r'
+                                  % (k + 1, tr, got, sorted(want))))
+        if fails:
+            break
+    return fails
+
+
+# ------------------------------------------------------------------------------------------------ equal-but-not-identical species objects
+def clones_of(x):
+    """copies of a species object that compare equal to it and are not it"""
+    import pickle
+    from cherab.core.atomic import Element, Isotope
+    out = [('copy', copy.copy(x)), ('deepcopy', copy.deepcopy(x)), ('pickle', pickle.loads(pickle.dumps(x)))]
+    if isinstance(x, Isotope):
+        st, y = call(Isotope, x.name, x.symbol, x.element, x.mass_number, x.atomic_weight)
+    else:
+        st, y = call(Element, x.name, x.symbol, x.atomic_number, x.atomic_weight)
+    if st == 'ok':
+        out.append(('constructed', y))
+    return [(k, y) for k, y in out if y == x and y is not x and hash(y) == hash(x)]
+
+
+def same_tree(a, b):
+    """structural equality of two parser results (nested dicts keyed by species / ints / tuples, arrays, floats)"""
+    if isinstance(a, dict) and isinstance(b, dict):
+        if len(a) != len(b):
+            return 'dict sizes %d / %d' % (len(a), len(b))
+        for k in a:
+            if k not in b:
+                return 'key %r missing' % (k,)
+            d = same_tree(a[k], b[k])
+            if d:
+                return '[%r] %s' % (k, d)
+        return None
+    if isinstance(a, (tuple, list)) and isinstance(b, (tuple, list)):
+        if len(a) != len(b):
+            return 'lengths differ'
+        for x, y in zip(a, b):
+            d = same_tree(x, y)
+            if d:
+                return d
+        return None
+    try:
+        return None if np.array_equal(np.asarray(a, dtype=float), np.asarray(b, dtype=float)) else 'values differ'
+    except Exception:
+        return None if a == b else 'values differ'
+
+
+SPECIES_FIELDS = ('element', 'donor', 'receiver', 'beam', 'target')
+
+
+def parse_call(P, c, path):
+    if c['fmt'] == '11':
+        return call(P.parse_adf11, c['element'], path)
+    if c['fmt'] == '12':
+        return call(P.parse_adf12, c['donor'], c['meta'], c['receiver'], c['charge'], path)
+    if c['fmt'] == '15':
+        return call(P.parse_adf15, c['element'], c['charge'], path, header_format=c['hf'])
+    if c['kind'] == 'adf21':
+        return call(P.parse_adf21, c['beam'], c['target'], c['zt'], path)
+    if c['kind'] == 'bmp':
+        return call(P.parse_adf22bmp, c['beam'], c['meta'], c['target'], c['zt'], path)
+    return call(P.parse_adf22bme, c['beam'], c['target'], c['zt'], c['transition'], path)
+
+
+def run_clones(ctx, w, c, text):
+    """every parse / install entry point with equal-but-not-identical species objects: same result as with the library objects"""
+    from cherab.openadas import parse as P, install as I, repository as R
+    rel, path = w.write(text, c.get('fname'))
+    fails = []
+    st0, r0 = parse_call(P, c, path)
+    name = installer_name(c)
+    if st0 != 'ok':
+        return [('C08:clone:%s:library-object-parse-raised-%s' % (name, st0), 'parse with the library species objects raised %s' % st0)]
+    fields = [f for f in SPECIES_FIELDS if f in c]
+    kinds = ['copy', 'deepcopy', 'pickle', 'constructed']
+    for kind in kinds:
+        cc = dict(c)
+        ok = True
+        for f in fields:
+            cl = dict(clones_of(c[f]))
+            if kind not in cl:
+                ok = False
+                break
+            cc[f] = cl[kind]
+        if not ok:
+            ctx.count('clone:%s-not-available' % kind)
+            continue
+        ctx.count('clone:' + kind)
+        st1, r1 = parse_call(P, cc, path)
+        pname = 'parse_adf' + (c['fmt'] if c['fmt'] != '2x' else {'adf21': '21', 'bmp': '22bmp', 'bme': '22bme'}[c['kind']])
+        if st1 != 'ok':
+            fails.append(('C08:clone:%s:%s:raised-%s' % (pname, kind, st1), '%s with %s-ed species objects raised %s (%s); with the library objects it parses'
+                          % (pname, kind, st1, str(r1)[:80])))
+        else:
+            d = same_tree(r0, r1) or same_tree(r1, r0)
+            if d:
+                fails.append(('C08:clone:%s:%s:result-differs' % (pname, kind), '%s with %s-ed species objects: %s' % (pname, kind, d)))
+        for via in ('direct', 'install_files'):
+            w.fresh_repo()
+            if via == 'direct':
+                st2, e = quiet(getattr(I, name), *install_args(cc, rel), repository_path=w.repo, adas_path=w.adas)
+            else:
+                st2, e = quiet(I.install_files, {config_key(cc): [install_args(cc, rel)]}, repository_path=w.repo, adas_path=w.adas)
+            front = name if via == 'direct' else 'install_files[%s]' % config_key(c)
+            if st2 != 'ok':
+                fails.append(('C08:clone:%s:%s:raised-%s' % (front, kind, st2), '%s with %s-ed species objects raised %s: %s' % (front, kind, st2, str(e)[:80])))
+                continue
+            for who, case in (('library', c), ('clone', cc)):
+                d = readback(R, case, w.repo)
+                if d:
+                    fails.append(('C08:clone:%s:%s:read-back-with-%s-objects:%s' % (front, kind, who, sigcat(d)),
+                                  '%s with %s-ed species objects, read back with %s objects: %s' % (front, kind, who, d)))
+    return fails
+
+
 def check_tags(ctx):
     """the model's conversion / charge tables against the tables this module uses for its own oracle"""
     out = ctx.driver(['tags'])[0]
@@ -1338,9 +1555,20 @@ def _streams(ctx, w):
     bcases = [c for b in bundles for _, c in b['cases']]
     lpairs = [p for _ in range(ctx.n(1, 12)) for p in gen_locate_round(ctx, rng)]
     lcases = [c for p in lpairs for c in p]
+    seqs = [sq for _ in range(ctx.n(2, 25)) for sq in gen_sequences(ctx, rng)]
+    scases = [c for _, steps in seqs for c in steps]
+    ccases = []
+    for _ in range(ctx.n(1, 10)):
+        ccases += [p[0] for p in gen_locate_round(ctx, rng)] + [gen_15(ctx, rng, modes=['hydrogen']), gen_15(ctx, rng, modes=['hydrogen-like'])]
     w.fresh_repo()
-    outs_all = ctx.driver([c['line'] for c in cases + bcases + lcases])
-    outs, bouts, louts = outs_all[:len(cases)], outs_all[len(cases):len(cases) + len(bcases)], outs_all[len(cases) + len(bcases):]
+    groups = [cases, bcases, lcases, scases, ccases]
+    outs_all = ctx.driver([c['line'] for g in groups for c in g])
+    cut, pos = [], 0
+    for g in groups:
+        cut.append(outs_all[pos:pos + len(g)])
+        pos += len(g)
+    outs, bouts, louts, souts, couts = cut
+    text_of = lambda o: o.split('#')[0].replace('|', '\n') + '\n'
     ctx.traces = 0
     import urllib.request
     stub, real = NetStub(), urllib.request.urlretrieve
@@ -1355,6 +1583,23 @@ def _streams(ctx, w):
             ctx.traces += 1
             for sig, why in fails:
                 ctx.fail(sig, why, dict(case=cA['desc'], file=tA, decoy=tB))
+        pos = 0
+        for name, steps in seqs:
+            texts = [text_of(o) for o in souts[pos:pos + len(steps)]]
+            pos += len(steps)
+            fails = run_sequence(ctx, w, name, steps, texts)
+            ctx.count('sequence:' + name.rstrip('abcdefghijklmnopqrstuvwxyz') if name.startswith('adf11') else 'sequence:' + name)
+            ctx.case(key=('sequence', name, tuple(c['sizes'] for c in steps[:2])),
+                     sample=dict(sequence=name, steps=[c['desc'] for c in steps]) if pos == len(steps) else None)
+            ctx.traces += 1
+            for sig, why in fails:
+                ctx.fail(sig, why, dict(sequence=name, steps=[c['desc'] for c in steps], files=texts))
+        for c, o in zip(ccases, couts):
+            fails = run_clones(ctx, w, c, text_of(o))
+            ctx.case(key=('clones', installer_name(c), c['sizes']))
+            ctx.traces += 1
+            for sig, why in fails:
+                ctx.fail(sig, why, dict(case=c['desc'], file=text_of(o)))
         _bundles(ctx, w, bundles, bouts)
         _cases(ctx, w, cases, outs)
     finally:
